@@ -91,6 +91,9 @@ func main() {
 		fatal("no contract files mention property %s", *prop)
 	}
 	e := load(*repo, *overlay, dirs)
+	if *prop != "all" {
+		e.curProp = *prop
+	}
 	if len(e.loadErrs) > 0 {
 		// the tree does not type-check: nothing can be decided
 		for _, er := range e.loadErrs {
